@@ -159,6 +159,335 @@ class _IdxContract(Exception):
     pass
 
 
+class _HarnessError(Exception):
+    """an inconsistent case (generator / replay file), never a verdict on the implementation"""
+
+
+# ----------------------------------------------------------------------------------------------------
+# composite language models of the library (shallow fusion) over parts of different classes / state layouts
+#
+# Every part is a state machine over Z_Mi (s <- (ai*s + bi*token + ci) mod Mi, logits = table_i[s]) with pairwise coprime
+# Mi, so (Chinese remainder theorem) the fused model IS a hash machine over Z_(M1*M2*..) with a, b, c = CRT of the parts'
+# and table[s] = sum_i coef_i * table_i[s mod Mi] (coef = product of the dyadic betas on the way to the leaf: exact in
+# float64).  The case carries that product machine in the usual fields (M, a, b, c, table, unit, inits): the Coq terms
+# (check_search / spec_okb, which chain the log-probabilities AFRESH along each history) are the ones of a plain case;
+# case["fuse"] only says how the implementation is reached: which library wrapper classes, prefixes, nesting, and for each
+# part its class, state key names, state layout (batch dimension 0 / 1 / last / none), statefulness and strictness.
+# ----------------------------------------------------------------------------------------------------
+#          layout -> {key suffix: batch dimension of that tensor (None: no batch dimension)}
+LAYOUTS = {"n": {"": 0},                 # (N,) long
+           "n2": {"": 0},                # (N, 2) long: step counter, state
+           "ln": {"": 1},                # (2, N) long: state, state + 1           (torch.nn.GRU-like: batch on dim 1)
+           "nh": {"": 0},                # (N, M) float64 one-hot                  (GRUCell-like)
+           "1nh": {"": 1},               # (1, N, M) float64 one-hot               (GRU-like: layers, batch, hidden)
+           "hn": {"": 1},                # (M, N) long one-hot, non-contiguous     (batch on the last dim)
+           "two": {"": 0, "_t": 0},      # two tensors (N,), (N,)
+           "mixed": {"": 0, "_T": 1},    # two tensors with different batch dims: (N,), (2, N)
+           "scalar": {"": 0, "_step": None}}   # (N,) and a 0-dim step counter that has no batch dimension
+_PART_CLS = None
+
+
+def _part_classes():
+    global _PART_CLS
+    if _PART_CLS is None:
+        from pydrobert.torch.modules import MixableSequentialLanguageModel
+
+        class PartLM(MixableSequentialLanguageModel):
+            """hash machine over Z_M whose state lives in prev under `key` (+ suffixes) in one of LAYOUTS.
+            strict: reads exactly its own keys (KeyError when one is missing), checks shapes, redundancy and the step
+            counter.  lenient (the base class's recommendation): re-runs update_input defensively - a missing state is
+            re-created as the initial one - and re-orders whatever tensors it is handed."""
+
+            def __init__(self, V, M, a, b, c, table, layout, key, strict):
+                super().__init__(V)
+                self.M, self.a, self.b, self.c, self.table = M, a, b, c, table
+                self.layout, self.key, self.strict, self.dims = layout, key, strict, LAYOUTS[layout]
+
+            def enc(self, s, t):
+                k, lay = self.key, self.layout
+                if lay == "n":
+                    return {k: s}
+                if lay == "n2":
+                    return {k: torch.stack([s * 0 + t, s], 1)}
+                if lay == "ln":
+                    return {k: torch.stack([s, s + 1], 0)}
+                oh = torch.nn.functional.one_hot(s, self.M)
+                if lay == "nh":
+                    return {k: oh.double()}
+                if lay == "1nh":
+                    return {k: oh.double().unsqueeze(0)}
+                if lay == "hn":
+                    return {k: oh.t()}
+                if lay == "two":
+                    return {k: s, k + "_t": s * 0 + t}
+                if lay == "mixed":
+                    return {k: s, k + "_T": torch.stack([s * 0 + t, s], 0)}
+                return {k: s, k + "_step": torch.tensor(t)}
+
+            def dec(self, prev, N, t):
+                k, lay, M = self.key, self.layout, self.M
+                x = prev[k]
+                step = None
+
+                def need(cond, what):
+                    assert cond, "test LM part %r (%s): %s" % (k, lay, what)
+                if lay in ("n", "two", "mixed", "scalar"):
+                    need(tuple(x.shape) == (N,), "state of shape %s for a batch of %d" % (tuple(x.shape), N))
+                    s = x
+                    if lay == "two":
+                        y = prev[k + "_t"]
+                        need(tuple(y.shape) == (N,), "step tensor of shape %s" % (tuple(y.shape),))
+                        step = y
+                    elif lay == "mixed":
+                        y = prev[k + "_T"]
+                        need(tuple(y.shape) == (2, N), "second tensor of shape %s" % (tuple(y.shape),))
+                        need(torch.equal(y[1], s), "the two state tensors are out of step")
+                        step = y[0]
+                    elif lay == "scalar":
+                        y = prev[k + "_step"]
+                        need(y.dim() == 0, "step counter of shape %s" % (tuple(y.shape),))
+                        step = y.expand(N)
+                elif lay == "n2":
+                    need(tuple(x.shape) == (N, 2), "state of shape %s for a batch of %d" % (tuple(x.shape), N))
+                    s, step = x[:, 1], x[:, 0]
+                elif lay == "ln":
+                    need(tuple(x.shape) == (2, N), "state of shape %s for a batch of %d" % (tuple(x.shape), N))
+                    s = x[0]
+                    need(torch.equal(x[1], s + 1), "the two rows of the state are out of step")
+                else:
+                    shp = {"nh": (N, M), "1nh": (1, N, M), "hn": (M, N)}[lay]
+                    need(tuple(x.shape) == shp, "state of shape %s, expected %s" % (tuple(x.shape), shp))
+                    oh = x[0] if lay == "1nh" else x.t() if lay == "hn" else x
+                    need(bool(((oh == 0) | (oh == 1)).all()) and bool((oh.sum(1) == 1).all()), "state is not one-hot")
+                    s = oh.argmax(1)
+                need(bool(((s >= 0) & (s < M)).all()), "state outside 0..M-1")
+                if self.strict and step is not None:
+                    need(bool((step == max(t - 1, 0)).all()), "step counter %s at idx %d" % (step.tolist(), t))
+                return s.long()
+
+            def update_input(self, prev, hist):
+                have = [self.key + sfx in prev for sfx in self.dims]
+                if all(have):
+                    return prev
+                if any(have) and self.strict:
+                    raise KeyError("test LM part %r: only some of its state tensors are present" % self.key)
+                return self.enc(torch.zeros(hist.size(1), dtype=torch.long), 0)
+
+            def calc_idx_log_probs(self, hist, prev, idx):
+                t = int(idx)
+                if t >= CAP:
+                    raise _Watchdog()
+                if t > hist.size(0):
+                    raise _IdxContract(f"idx {t} > hist.size(0) {hist.size(0)}")
+                if not self.strict:
+                    prev = self.update_input(prev, hist)
+                s = self.dec(prev, hist.size(1), t)
+                if t > 0:
+                    tok = hist[t - 1]
+                    assert ((tok >= 0) & (tok < self.vocab_size)).all(), "history outside the vocabulary"
+                    s = (self.a * s + self.b * tok + self.c) % self.M
+                return self.table[s], self.enc(s, t)
+
+            def extract_by_src(self, prev, src):
+                if self.strict:
+                    items = [(self.key + sfx, prev[self.key + sfx], d) for sfx, d in self.dims.items()]
+                else:
+                    items = [(k, v, self.dims.get(k[len(self.key):], self.dims[""]) if v.dim() else None) for k, v in prev.items()]
+                return {k: (v if d is None else v.index_select(d, src)) for k, v, d in items}
+
+            def mix_by_mask(self, prev_true, prev_false, mask):
+                out = {}
+                for sfx, d in self.dims.items():
+                    vt, vf = prev_true[self.key + sfx], prev_false[self.key + sfx]
+                    if d is None:
+                        out[self.key + sfx] = vt
+                    else:
+                        shp = [1] * vt.dim()
+                        shp[d] = -1
+                        out[self.key + sfx] = torch.where(mask.view(shp), vt, vf)
+                return out
+
+        class CtxLM(MixableSequentialLanguageModel):
+            """stateless: logits = table[hist[idx-1] + 1] (row 0 at idx 0), read off the history itself; no state at all
+            (extract_by_src returns {} like the library's lookup model) or, with step_key, a 0-dim step counter"""
+
+            def __init__(self, V, table, step_key):
+                super().__init__(V)
+                self.table, self.step_key = table, step_key
+
+            def update_input(self, prev, hist):
+                if self.step_key is None or self.step_key in prev:
+                    return prev
+                return {self.step_key: torch.tensor(0)}
+
+            def calc_idx_log_probs(self, hist, prev, idx):
+                t = int(idx)
+                if t >= CAP:
+                    raise _Watchdog()
+                if t > hist.size(0):
+                    raise _IdxContract(f"idx {t} > hist.size(0) {hist.size(0)}")
+                if self.step_key is not None:
+                    assert int(prev[self.step_key]) == max(t - 1, 0), "test LM (ctx): step counter out of step"
+                    prev = {self.step_key: torch.tensor(t)}
+                if t == 0:
+                    return self.table[:1].expand(hist.size(1), -1), prev
+                return self.table[hist[t - 1] + 1], prev
+
+            def extract_by_src(self, prev, src):
+                return {} if self.step_key is None else {self.step_key: prev[self.step_key]}
+
+            def mix_by_mask(self, prev_true, prev_false, mask):
+                return {} if self.step_key is None else {self.step_key: prev_true[self.step_key]}
+
+        _PART_CLS = (PartLM, CtxLM)
+    return _PART_CLS
+
+
+def _crt(residues, moduli):
+    """x mod prod(moduli) with x = residues[i] mod moduli[i] (pairwise coprime moduli)"""
+    x, m = 0, 1
+    for r, mi in zip(residues, moduli):
+        if mi == 1:
+            continue
+        assert math.gcd(m, mi) == 1, "moduli are not coprime"
+        x += m * (((r - x) * pow(m, -1, mi)) % mi)
+        m *= mi
+    return x % m
+
+
+def _lookup_geometry(V, order, sos):
+    """the library's LookupLanguageModel with DENSE n-gram tables as a hash machine: codes 0..B-1 for the context tokens
+    (sos outside the vocabulary gets code 0, token w code w + 1), state = the last order-1 codes in base B"""
+    inv = 0 <= sos < V
+    B = V if inv else V + 1
+    M = B ** (order - 1)
+    code_sos = sos if inv else 0
+    init = sum(code_sos * B ** k for k in range(order - 1)) % M
+    return dict(B=B, M=M, a=(B % M if M > 1 else 0), b=(1 % M), c=((0 if inv else 1) % M), init=init, inv=inv)
+
+
+def _lookup_ctx(V, order, sos, s):
+    """context tokens (oldest first) of state s"""
+    g = _lookup_geometry(V, order, sos)
+    codes = [(s // g["B"] ** k) % g["B"] for k in range(order - 2, -1, -1)]
+    return tuple(cd if g["inv"] else (sos if cd == 0 else cd - 1) for cd in codes)
+
+
+def _make_lookup(V, p):
+    """LookupLanguageModel whose highest-order table holds p["table"] (every n-gram present, so no backoff is ever taken);
+    lower orders and the entries for w = sos are filled with other values (never to be read)"""
+    import random
+    from pydrobert.torch.modules import LookupLanguageModel
+    order, sos = p["order"], p["sos"]
+    g = _lookup_geometry(V, order, sos)
+    r = random.Random(p.get("lseed", 0))
+    toks = list(range(V)) + ([] if g["inv"] else [sos])
+    state_of = {_lookup_ctx(V, order, sos, s): s for s in range(g["M"])}
+    dicts = []
+    for n in range(1, order + 1):
+        d = {}
+        for ctx in itertools.product(toks, repeat=n - 1):
+            for w in toks:
+                if n == order and (g["inv"] or w != sos):
+                    val = p["table"][state_of[ctx]][w] / UNIT
+                else:
+                    val = r.randint(-3 * UNIT, 3 * UNIT) / UNIT
+                key = (ctx + (w,)) if n > 1 else w
+                d[key] = val if n == order else (val, r.randint(-UNIT, UNIT) / UNIT)
+        dicts.append(d)
+    lm = LookupLanguageModel(V, sos, prob_dicts=dicts)
+    return lm.double() if p.get("double") else lm
+
+
+def _fuse_leaves(node, coef=Fraction(1), prefix=""):
+    """[(part index, coefficient of its logits in the fused logits, prefix of its state keys)] of a fusion tree"""
+    if isinstance(node, int):
+        return [(node, coef, prefix)]
+    p1, p2 = node.get("pre") or ["first.", "second."]
+    return (_fuse_leaves(node["f"][0], coef, prefix + p1)
+            + _fuse_leaves(node["f"][1], coef * Fraction(*node["beta"]), prefix + p2))
+
+
+def _fuse_product(V, fuse):
+    """the product machine of a fusion: (M, a, b, c, table (integers), unit, per-part moduli in part order)"""
+    parts = fuse["parts"]
+    leaves = sorted(_fuse_leaves(fuse["tree"]))
+    assert [i for i, _, _ in leaves] == list(range(len(parts))), "every part must be used exactly once"
+    mods = [p["M"] for p in parts]
+    M = 1
+    for m in mods:
+        M *= m
+    Q = 1
+    for _, cf, _ in leaves:
+        Q = max(Q, cf.denominator)
+    assert Q & (Q - 1) == 0 and all((Q * cf).denominator == 1 for _, cf, _ in leaves), "betas must be dyadic"
+    a, b, c = (_crt([p[k] for p in parts], mods) for k in "abc")
+    table = [[sum(int(Q * cf) * parts[i]["table"][s % mods[i]][v] for i, cf, _ in leaves) for v in range(V)] for s in range(M)]
+    return M, a, b, c, table, UNIT * Q, mods
+
+
+def _part_float32(p):
+    return p["kind"] == "lookup" and not p.get("double")
+
+
+def _build_fused(case):
+    """the library's composite over the parts of case["fuse"]"""
+    from pydrobert.torch.modules import ExtractableShallowFusionLanguageModel, MixableShallowFusionLanguageModel
+    PartLM, CtxLM = _part_classes()
+    V, fuse = case["V"], case["fuse"]
+    lms = []
+    for p in fuse["parts"]:
+        tab = torch.tensor(p["table"], dtype=torch.float64) / UNIT
+        if p["kind"] == "lookup":
+            lms.append(_make_lookup(V, p))
+        elif p["kind"] == "ctx":
+            lms.append(CtxLM(V, tab, p.get("step_key")))
+        elif p["kind"] == "hash":
+            lms.append(_lm_class()(V, p["M"], p["a"], p["b"], p["c"], tab))
+        else:
+            lms.append(PartLM(V, p["M"], p["a"], p["b"], p["c"], tab, p["layout"], p["key"], p["strict"]))
+
+    def build(node):
+        if isinstance(node, int):
+            return lms[node]
+        cls = MixableShallowFusionLanguageModel if node.get("cls") == "M" else ExtractableShallowFusionLanguageModel
+        first, second = build(node["f"][0]), build(node["f"][1])
+        beta = node["beta"][0] / node["beta"][1]
+        form = node.get("form", 0)
+        if node.get("pre"):
+            if form % 2:
+                return cls(first, second, beta, *node["pre"])
+            return cls(first, second, first_prefix=node["pre"][0], second_prefix=node["pre"][1], beta=beta)
+        if beta == 0 and form % 2:
+            return cls(first, second)            # beta left at its default
+        if form % 4 >= 2:
+            return cls(first=first, second=second, beta=beta)
+        return cls(first, second, int(beta) if form % 3 == 0 and beta == int(beta) else beta)
+    return build(fuse["tree"]), lms
+
+
+def _fused_init(case, inits, lms):
+    """the initial_state dictionary: for each part whose "given" flag is set, its state for the residues of `inits`
+    under the prefixes of the tree; the other parts are left to their update_input (state 0 / nothing)"""
+    fuse = case["fuse"]
+    init = {}
+    for i, _, prefix in _fuse_leaves(fuse["tree"]):
+        p = fuse["parts"][i]
+        s = torch.tensor([x % p["M"] for x in inits], dtype=torch.long)
+        if p["kind"] in ("lookup", "ctx") or not p.get("given", True):
+            if not all(int(x) == p.get("init", 0) for x in s):
+                raise _HarnessError("initial state of a part that cannot be given one")
+            if p["kind"] == "ctx" and p.get("step_key") and p.get("given"):
+                init[prefix + p["step_key"]] = torch.tensor(0)
+            continue
+        if p["kind"] == "hash":
+            st = {"s": s, "aux": torch.stack([s * 0, s], 1)}
+        else:
+            st = lms[i].enc(s, 0)
+        init.update((prefix + k, v) for k, v in st.items())
+    return init
+
+
 def _f32(case):
     return case.get("dtype") == "float32"
 
@@ -199,6 +528,18 @@ def _valid_equal(y1, l1, y2, l2):
 def _call(bs, case, init, N, mi):
     """the call forms of BeamSearch.__call__ (all documented as equivalent)"""
     via = case.get("via")
+    if via == "fused":
+        form = case.get("form", 0)
+        if not init:
+            # no part is given a state: None / {} / omitted
+            if form % 3 == 0:
+                return bs(None, N, mi)
+            if form % 3 == 1 and N is not None and mi is not None:
+                return bs(batch_size=N, max_iters=mi)
+            return bs({}, N, mi)
+        if form % 2:
+            return bs(init, max_iters=mi, batch_size=N)
+        return bs(init, N, mi)
     if via == "noinit":
         form = case.get("form", 0) % 3
         if form == 0:
@@ -234,17 +575,28 @@ def _search_once(case, inits, N):
     via = case.get("via")
     tab = _table_tensor(case)
     args = (case["V"], case["M"], case["a"], case["b"], case["c"], tab)
-    if via == "script":
+    parts = None
+    if via == "fused":
+        # harness consistency (not a verdict on the implementation): the case's machine is the product of its parts
+        M, a, b, c, table, unit, _ = _fuse_product(case["V"], case["fuse"])
+        if (M, a, b, c, table, unit) != (case["M"], case["a"], case["b"], case["c"], case["table"], case["unit"]):
+            raise _HarnessError("fused case does not carry the product machine of its parts")
+        if _f32(case) != all(_part_float32(p) for p in case["fuse"]["parts"]):
+            raise _HarnessError("fused case carries the wrong dtype")
+        lm = None
+    elif via == "script":
         lm = _slm_class()(*args, CAP)
     elif via == "views":
         lm = _lm_class().View(*args)
     else:
         lm = _lm_class()(*args)
     try:
+        if via == "fused":
+            lm, parts = _build_fused(case)
         bs = BeamSearch(lm, case["width"], eos=case["eos"], finish_all_paths=case["fin_all"], pad_value=case["pad"])
         if via == "script":
             bs = torch.jit.script(bs)
-        init = _init_state(inits, via)
+        init = _fused_init(case, inits, parts) if via == "fused" else _init_state(inits, via)
         if via == "reuse":
             oN = (N or 1) + 1 + case.get("form", 0) % 2
             omi = 1 + (case.get("form", 0) // 2 + (case["max_iters"] or 2)) % 4
@@ -257,6 +609,8 @@ def _search_once(case, inits, N):
         if via == "reuse":
             if not (_valid_equal(first[0], first[1], y, lens) and torch.equal(first[2], lp)):
                 return {"exc": "HistoryDependent", "msg": "two calls of one module object with the same arguments differ"}
+    except _HarnessError:
+        raise
     except _Watchdog:
         return {"watchdog": True}
     except _IdxContract as e:
